@@ -31,8 +31,7 @@ ASSUMPTIONS = [
     'projection shells: Geodesic::GenInverse, GenDirect, Line and GeodesicLine::GenPosition are opaque (arbitrary results); the claim is about what the projection code passes to and does with the geodesic solver, whose own correctness is the subject of C02/C03/C12',
     'Math::sincosd, atan2d, AngDiff, AngNormalize opaque with sin^2+cos^2 = 1',
     'Gnomonic::Reverse: Newton update checked against s - (rho(s) - rho)/rho\'(s) with rho = m12/M12, rho\' = 1/M12^2 (and the reciprocal form beyond rho = a) for runs converging in at most 4 iterations; convergence itself is outside the claim',
-    'Intersect: Spherical/Basic (Newton refinement) and ConjugateDist are environment stubs returning arbitrary points; the claims are that the search routines return only genuine candidates (a Basic result or a conjugate point on the coincidence line y = c x), pick the L1-closest among the candidates they evaluated, and that fixcoincident/fixsegment move a point only along its coincidence line to the documented place. That the tiling constants make the search exhaustive is outside the claim',
-    'NearestNeighbor<int,int,D>::Search on an arbitrary valid vantage-point tree with at most 3 points (bucket size 0), arbitrary integer metric obeying symmetry and the triangle inequality with distances < 2^20, k <= 3, arbitrary maxdist/mindist, exhaustive search, tol = 0; tree construction, buckets > 0, Save/Load and floating-point dist_t are outside the claim',
+    'Intersect: only the static helpers fixcoincident and fixsegment are decided (they move a coincident intersection along its coincidence line to the documented place). The search routines (Closest/Next/Segment/All tilings, Newton refinement, conjugate points) and NearestNeighbor are NOT covered: bounded model checking of NextInt/ClosestInt with the refinement as an environment stub and of NearestNeighbor::Search on symbolic 2-3 point trees was built and did not reach a verdict within 30-90 minutes and 6-65 GB (see DESIGN.md), so no claim is made for them',
 ]
 
 def caps(ctx):
@@ -385,8 +384,9 @@ def replay(rp):
     return None, 'no concrete replay for ' + str(cex.get('kind'))
 
 MANIFEST = {
-    'engine': 'E2+E1',
-    'technique': 'symbolic execution of clang IR over z3 reals with the geodesic solver as an opaque environment (projection shells, intersection bookkeeping); cbmc on generated C for the search routines',
-    'text': 'Bounded solver verdicts on the real code.',
-    'note': 'Geodesic numerics, exhaustiveness of the intersection tiling, tree construction and serialisation are outside the claim.',
+    'engine': 'E2',
+    'technique': 'symbolic execution of clang IR over z3 reals with the geodesic solver as an opaque environment; every claim is a z3 validity query under the path condition',
+    'text': 'Bounded solver verdicts on the real code: AzimuthalEquidistant, Gnomonic and CassiniSoldner Forward/Reverse pass the right problems to the geodesic solver and assemble exactly the defining geometry from its answers '
+            '(distance and azimuth from the centre, radius m12/M12 with NaN beyond the horizon, Newton update of the gnomonic inverse, perpendicular foot construction); Intersect::fixcoincident/fixsegment keep a coincident intersection on its line and place it as documented.',
+    'note': 'The geodesic solver is opaque (its correctness is C02/C03/C12); Intersect search routines and NearestNeighbor are not covered (attempted, out of reach for cbmc here); exact-real semantics. Trusted: clang-14, vfw/irparse+rsym, z3.',
 }
